@@ -36,15 +36,22 @@ type c21Hooks struct {
 
 	mu       sync.Mutex
 	inflight map[string]int // gated invocations on connection-started goroutines that have not returned; key = kind:creator
-	blocked  map[string]int // how many such invocations were held during the close, per kind
-	foreign  map[string]int // invocations during close on goroutines NOT created by pion code (never judged)
-	dcs      []*DataChannel // the peer's data channels (created or accepted), for the transfer workload
+	// what the in-flight invocations of a key run on: worker = a long-lived goroutine of the connection that executes
+	// library code around the handler (a read loop, the operations queue) as opposed to a goroutine created for this one
+	// dispatch; objs = the sub-objects (data channels) the invocations belong to; stack = first stack seen for the key
+	worker  map[string]bool
+	objs    map[string]map[any]int
+	stack   map[string]string
+	blocked map[string]int // how many such invocations were held during the close, per kind
+	foreign map[string]int // invocations during close on goroutines NOT created by pion code (never judged)
+	dcs     []*DataChannel // the peer's data channels (created or accepted), for the transfer workload
 }
 
 func newC21Hooks(gated map[string]bool) *c21Hooks {
 	return &c21Hooks{
 		open: make(chan struct{}), gated: gated,
 		inflight: map[string]int{}, blocked: map[string]int{}, foreign: map[string]int{},
+		worker: map[string]bool{}, objs: map[string]map[any]int{}, stack: map[string]string{},
 	}
 }
 
@@ -57,19 +64,44 @@ var ( //nolint:gochecknoglobals
 // function holding the go statement that created it ("webrtc.(*DataChannel).onClose"): that goroutine is the one a
 // returning GracefulClose has not waited for.
 func c21StartedByPion() (creator string, ok bool) {
+	creator, _, _, ok = c21Goroutine()
+
+	return creator, ok
+}
+
+// c21Goroutine is c21StartedByPion plus the shape of the calling goroutine: worker reports that some frame between the
+// goroutine's entry and the handler is a named library function (not a closure of the dispatching function, not the
+// harness) — the handler was called from a loop of the connection (DataChannel.readLoop, operations.start), not from a
+// goroutine created just to run this one handler invocation.
+func c21Goroutine() (creator string, worker bool, stack string, ok bool) {
 	buf := make([]byte, 256<<10)
 	n := runtime.Stack(buf, false)
 	s := string(buf[:n])
 	i := strings.LastIndex(s, "\ncreated by ")
 	if i < 0 {
-		return "", false // the test's main goroutine, or a truncated dump: not judged
+		return "", false, "", false // the test's main goroutine, or a truncated dump: not judged
 	}
 	tail := s[i+1:]
 	if !strings.HasPrefix(tail, "created by github.com/pion/") {
-		return "", false
+		return "", false, "", false
 	}
 	if strings.Contains(tail, "/vf_") || strings.Contains(tail, "TestVerif") || strings.Contains(tail, "internal/verifkit") {
-		return "", false
+		return "", false, "", false
+	}
+	stack = s
+	for _, ln := range strings.Split(s[:i], "\n")[1:] {
+		if !strings.HasPrefix(ln, "github.com/pion/") {
+			continue // file:line lines, runtime and standard-library frames
+		}
+		if j := strings.LastIndex(ln, "("); j > 0 {
+			ln = ln[:j]
+		}
+		if strings.Contains(ln, "c21") || strings.Contains(ln, "TestVerif") || strings.Contains(ln, "internal/verifkit") {
+			continue
+		}
+		if !c21ClosureTail.MatchString(ln) {
+			worker = true
+		}
 	}
 	creator = strings.TrimPrefix(tail, "created by github.com/pion/")
 	if j := strings.IndexAny(creator, " \n"); j >= 0 {
@@ -85,14 +117,17 @@ func c21StartedByPion() (creator string, ok bool) {
 		}
 	}
 
-	return creator, true
+	return creator, worker, stack, true
 }
 
-func (h *c21Hooks) enter(kind string) {
+func (h *c21Hooks) enter(kind string) { h.enterOn(kind, nil) }
+
+// enterOn is enter for a handler registered on a sub-object of the connection (obj: the *DataChannel).
+func (h *c21Hooks) enterOn(kind string, obj any) {
 	if !h.closing.Load() || !h.gated[kind] {
 		return
 	}
-	creator, ok := c21StartedByPion()
+	creator, worker, stack, ok := c21Goroutine()
 	if !ok {
 		h.mu.Lock()
 		h.foreign[kind]++
@@ -104,26 +139,68 @@ func (h *c21Hooks) enter(kind string) {
 	h.mu.Lock()
 	h.inflight[key]++
 	h.blocked[kind]++
+	if worker {
+		h.worker[key] = true
+	}
+	if obj != nil {
+		if h.objs[key] == nil {
+			h.objs[key] = map[any]int{}
+		}
+		h.objs[key][obj]++
+	}
+	if _, seen := h.stack[key]; !seen {
+		h.stack[key] = stack
+	}
 	h.mu.Unlock()
 	<-h.open
 	h.mu.Lock()
 	h.inflight[key]--
+	if obj != nil {
+		h.objs[key][obj]--
+	}
 	h.mu.Unlock()
 }
 
-// inflightKinds returns the kind:creator keys that have an invocation in flight right now (sorted).
-func (h *c21Hooks) inflightKinds() []string {
+// c21Inflight describes the invocations of one kind:creator key that have not returned.
+type c21Inflight struct {
+	key    string
+	worker bool
+	objs   []any // sub-objects with an invocation in flight
+	stack  string
+}
+
+func (h *c21Hooks) inflightNow() []c21Inflight {
 	h.mu.Lock()
 	defer h.mu.Unlock()
-	var out []string
+	var out []c21Inflight
 	for k, n := range h.inflight {
-		if n > 0 {
-			out = append(out, k)
+		if n <= 0 {
+			continue
 		}
+		f := c21Inflight{key: k, worker: h.worker[k], stack: h.stack[k]}
+		for o, m := range h.objs[k] {
+			if m > 0 {
+				f.objs = append(f.objs, o)
+			}
+		}
+		out = append(out, f)
 	}
-	sort.Strings(out)
+	sort.Slice(out, func(i, j int) bool { return out[i].key < out[j].key })
 
 	return out
+}
+
+// busyOn reports whether an invocation of kind on obj is in flight (held) right now.
+func (h *c21Hooks) busyOn(kind string, obj any) bool {
+	h.mu.Lock()
+	defer h.mu.Unlock()
+	for k, m := range h.objs {
+		if strings.HasPrefix(k, kind+":") && m[obj] > 0 {
+			return true
+		}
+	}
+
+	return false
 }
 
 func (h *c21Hooks) busy(kind string) bool {
@@ -147,16 +224,16 @@ func (h *c21Hooks) channels() []*DataChannel {
 
 // adoptChannel registers every data-channel handler on d (called for created and for accepted channels).
 func (h *c21Hooks) adoptChannel(d *DataChannel, lowThreshold uint64) {
-	d.OnOpen(func() { h.enter("dc.OnOpen") })
-	d.OnDial(func() { h.enter("dc.OnDial") })
+	d.OnOpen(func() { h.enterOn("dc.OnOpen", d) })
+	d.OnDial(func() { h.enterOn("dc.OnDial", d) })
 	d.OnMessage(func(DataChannelMessage) {
 		h.msgs.Add(1)
-		h.enter("dc.OnMessage")
+		h.enterOn("dc.OnMessage", d)
 	})
-	d.OnClose(func() { h.enter("dc.OnClose") })
-	d.OnError(func(error) { h.enter("dc.OnError") })
+	d.OnClose(func() { h.enterOn("dc.OnClose", d) })
+	d.OnError(func(error) { h.enterOn("dc.OnError", d) })
 	d.SetBufferedAmountLowThreshold(lowThreshold)
-	d.OnBufferedAmountLow(func() { h.enter("dc.OnBufferedAmountLow") })
+	d.OnBufferedAmountLow(func() { h.enterOn("dc.OnBufferedAmountLow", d) })
 	h.mu.Lock()
 	h.dcs = append(h.dcs, d)
 	h.mu.Unlock()
